@@ -629,7 +629,13 @@ func (sp *sourcePrinter) generate(maxFiles int, rpt *Report) WebListData {
 	for _, f := range sp.files {
 		files = append(files, f)
 	}
-	order := func(i, j int) bool { return files[i].flat > files[j].flat }
+	order := func(i, j int) bool {
+		if files[i].flat != files[j].flat {
+			return files[i].flat > files[j].flat
+		}
+		// files come out of a map: break ties to keep the listing stable
+		return files[i].fname < files[j].fname
+	}
 	if maxFiles < 0 {
 		// Order by name for compatibility with old code.
 		order = func(i, j int) bool { return files[i].fname < files[j].fname }
